@@ -10,7 +10,7 @@ import ast
 import re
 from typing import Dict, List, Optional, Set, Tuple
 
-from ..core import AnalysisError, CheckResult, Finding, Repo, norm, walk_no_nested
+from ..core import AnalysisError, CheckResult, Finding, Repo, func_params, norm, walk_no_nested
 from ..strkind import IDENT_PREFIXES, SAFE_TEXT, StrKind
 from ..values import Resolver, ctx_for
 
@@ -226,6 +226,8 @@ def run(repo: Repo, tier: str, res: CheckResult, seed: int = 0) -> None:
     validators(repo, res)
     sanitizer(repo, res)
     res.coverage["hole_kind_histogram"] = dict(sorted(kinds_hist.items()))
+    ast_templater_structural(repo, res)
+    captured_global_names(repo, res)
     res.assumptions = list(ASSUMPTIONS)
 
     from .. import genprog
@@ -435,6 +437,29 @@ def validators(repo: Repo, res: CheckResult) -> None:
     if not ok_param:
         res.add(Finding("C19", "IDENT.validator", m.rel, "Param._validate", "isidentifier(name)",
                         "parameter names / field ids of Param are no longer validated as identifiers", pa.node.lineno))
+    # the identifier has to be STABLE under the parser's NFKC normalisation: '\ufb01' (a legal identifier) is read back as 'fi'
+    helper = m.functions.get("is_valid_field_id")
+    if helper is None:
+        raise AnalysisError("anchor vanished: model_tools/definitions.is_valid_field_id")
+    res.evaluated("validator:field-id-nfkc", True)
+    rets = [r for r in ast.walk(helper) if isinstance(r, ast.Return) and r.value is not None]
+    p0 = helper.args.args[0].arg
+
+    def nfkc_fixpoint(e: ast.expr) -> bool:
+        for c in ast.walk(e):
+            if isinstance(c, ast.Compare) and len(c.ops) == 1 and isinstance(c.ops[0], ast.Eq):
+                sides = [c.left, c.comparators[0]]
+                calls = [x for x in sides if isinstance(x, ast.Call) and norm(x.func).endswith("normalize") and x.args
+                         and isinstance(x.args[0], ast.Constant) and x.args[0].value in ("NFKC",) and norm(x.args[-1]) == p0]
+                if calls and any(norm(x) == p0 for x in sides):
+                    return True
+        return False
+    if not (rets and all(isinstance(r.value, ast.BoolOp) and isinstance(r.value.op, ast.And) and nfkc_fixpoint(r.value) for r in rets)):
+        res.add(Finding("C19", "IDENT.validator-nfkc", m.rel, "is_valid_field_id", "; ".join(norm(r.value) for r in rets)[:120],
+                        "a field id is accepted although it is not a fixed point of NFKC normalisation: the parser normalises "
+                        "identifiers, so f_<id> / loader_<id> / <id>=... written for the key '\ufb01' denote `fi` in the generated "
+                        "code -- two fields share one variable (silently wrong values) or the generated name is not bound "
+                        "(NameError while the loader is built)", helper.lineno))
 
 
 def _raises_unless_identifier(repo: Repo, m, fn: ast.FunctionDef, attr: str) -> bool:
@@ -515,3 +540,77 @@ def _first_letter_safe(fn: ast.FunctionDef, left: ast.expr) -> bool:
                 if "ascii_letters" in t or "isalpha" in t and "isascii" in t:
                     return True
     return False
+
+
+def ast_templater_structural(repo: Repo, res: CheckResult) -> None:
+    """ast_substitute puts AST fragments (field accesses built from user-chosen attribute names and keys) into a code
+    template. It must parse the FIXED template first and replace placeholder Name nodes in the tree: a textual replacement
+    rewrites every occurrence of the placeholder text, including the ones inside an already substituted fragment (a source
+    field called `__target_expr__` reads `data.data`), and re-parses user-derived text as code."""
+    m = repo.mod("code_tools/ast_templater")
+    fn = next((f for f in m.tree.body if isinstance(f, ast.FunctionDef) and f.name == "ast_substitute"), None)
+    if fn is None:
+        raise AnalysisError("anchor vanished: code_tools/ast_templater.ast_substitute")
+    tpl = func_params(fn)[0]
+    res.evaluated("templater:structural-substitution", True)
+    problems = []
+    for st in ast.walk(fn):
+        tgts = st.targets if isinstance(st, ast.Assign) else [st.target] if isinstance(st, (ast.AugAssign, ast.AnnAssign)) else []
+        if any(isinstance(t, ast.Name) and t.id == tpl for t in tgts):
+            problems.append(f"`{norm(st)[:80]}` rewrites the template text")
+    parses = [c for c in ast.walk(fn) if isinstance(c, ast.Call) and norm(c.func) in ("ast.parse", "parse")]
+    if not parses:
+        problems.append("the template is never parsed")
+    for c in parses:
+        if not (c.args and isinstance(c.args[0], ast.Name) and c.args[0].id == tpl):
+            problems.append(f"`{norm(c)[:80]}` parses something else than the fixed template")
+    for c in ast.walk(fn):
+        if isinstance(c, ast.Call) and isinstance(c.func, ast.Attribute) and c.func.attr in ("replace", "format", "substitute", "format_map") \
+                and any(isinstance(x, ast.Name) and x.id == tpl for x in ast.walk(c.func.value)):
+            problems.append(f"`{norm(c)[:80]}` substitutes in the text")
+        if isinstance(c, ast.Call) and norm(c.func) in ("ast.unparse", "unparse"):
+            problems.append(f"`{norm(c)[:80]}` renders a fragment back to text")
+    for pr in dict.fromkeys(problems):
+        res.add(Finding("C19", "TEMPLATER.textual-substitution", m.rel, "ast_substitute", pr[:120],
+                        f"{pr}: placeholders must be replaced as Name nodes of the parsed fixed template; textual replacement also hits the "
+                        "placeholder text inside substituted fragments (a source attribute or key named like the placeholder silently "
+                        "reads another member) and lets user-derived text be parsed as code", fn.lineno))
+
+
+def captured_global_names(repo: Repo, res: CheckResult) -> None:
+    """compile_closure_with_globals_capturing emits `name = <global name>` for every namespace constant inside the closure
+    maker, where every namespace name and the closure name are LOCALS. The global name therefore has to differ from all of
+    them (and from the other globals): with the fixed prefix alone, `foo` and `g_foo` in one namespace make `foo = g_foo`
+    read the local `g_foo` -- UnboundLocalError or, in the other order, the wrong function without any error."""
+    m = repo.mod("morphing/model/basic_gen")
+    fn = m.functions.get("compile_closure_with_globals_capturing")
+    if fn is None:
+        raise AnalysisError("anchor vanished: basic_gen.compile_closure_with_globals_capturing")
+    ps = {a.arg for a in fn.args.args + fn.args.kwonlyargs}
+    ns_param = "namespace" if "namespace" in ps else None
+    cl_param = "closure_name" if "closure_name" in ps else None
+    if ns_param is None or cl_param is None:
+        raise AnalysisError("compile_closure_with_globals_capturing: parameters namespace / closure_name not found")
+    res.evaluated("scope:captured-global-names", True)
+    # the variable that names the global: key of the globals dict store
+    gvars = {norm(st.targets[0].slice) for st in ast.walk(fn) if isinstance(st, ast.Assign) and isinstance(st.targets[0], ast.Subscript)
+             and isinstance(st.targets[0].slice, ast.Name)}
+    ok = False
+    for w in ast.walk(fn):
+        if isinstance(w, ast.While) and isinstance(w.test, ast.Compare) and len(w.test.ops) == 1 and isinstance(w.test.ops[0], ast.In) \
+                and norm(w.test.left) in gvars:
+            occ = norm(w.test.comparators[0])
+            inits = [st.value for st in ast.walk(fn) if isinstance(st, ast.Assign) and any(norm(t) == occ for t in st.targets)]
+            names = {x.id for v in inits for x in ast.walk(v) if isinstance(x, ast.Name)}
+            grows = any(isinstance(c, ast.Call) and isinstance(c.func, ast.Attribute) and c.func.attr == "add" and norm(c.func.value) == occ
+                        for c in ast.walk(fn))
+            rebinds = any(isinstance(st, ast.Assign) and any(norm(t) in gvars for t in st.targets) for st in ast.walk(w))
+            if ns_param in names and cl_param in names and grows and rebinds:
+                ok = True
+    if not ok:
+        res.add(Finding("C19", "SCOPE.captured-global-collides", m.rel, "compile_closure_with_globals_capturing",
+                        "global names are not made distinct from the namespace names and the closure name",
+                        "the name under which a namespace constant is captured as a global is not checked against the names that are "
+                        "locals of the closure maker (every namespace name, the closure name) and against the other globals: user-chosen "
+                        "names that start with the prefix (functions `foo` and `g_foo` linked to one converter, a converter named "
+                        "`g_coercer`) make the generated `name = g_name` read a local -- UnboundLocalError or the wrong function", fn.lineno))
